@@ -106,4 +106,22 @@ theorem C17_found_order (F : FEnv) (toParse original translated : List (List Cha
     · intro x hx; exact hs.2.2 x (List.mem_filter.mp hx).1
     · intro x hx; simpa using (List.mem_filter.mp hx).2
 
+
+/-- **C17_split_join**: the pieces `s.split(sep)` returns, joined by `sep`, are `s`: every piece is a contiguous part of `s`, in order -/
+theorem C17_split_join (s sep : List Char) (hsep : sep ≠ []) : pyJoin sep (pySplit s sep) = s := pyJoin_pySplit s sep hsep
+
+/-- **C17_found_from** (provenance of the hits): the text of every hit is the original chunk it points at, stripped of surrounding
+    punctuation, or one piece of one of the candidate splits of that chunk, stripped — never text from anywhere else. -/
+theorem C17_found_from (F : FEnv) (toParse original translated : List (List Char)) (rb0 : DateId) (hits : List Hit)
+    (h : parseFound F toParse original translated rb0 = .ok hits) : ∀ x ∈ hits, HitFrom toParse original x := by
+  unfold parseFound at h
+  cases h1 : foundGo F original translated toParse 0 [] [] rb0 with
+  | error e => rw [h1] at h; cases h
+  | ok r =>
+    rw [h1] at h
+    simp only [Except.map] at h
+    injection h with h; subst h
+    intro x hx
+    exact foundGo_from F original translated toParse toParse 0 rfl [] [] rb0 r (by simp) h1 x (List.mem_filter.mp hx).1
+
 end DP.Search
